@@ -1,6 +1,6 @@
 """C04 - quoting or list-indenting any document wraps its parse unchanged (E1, line alphabet)."""
 import itertools
-from mc import core, spaces
+from mc import core, spaces, trees
 
 ID = 'C04'
 TECHNIQUE = ('exhaustive enumeration of all texts of <= 3/4 lines over a 30-line alphabet, each embedded under "> ", under '
@@ -13,18 +13,25 @@ L = spaces.LINES
 BOUNDS = {'quick': 3, 'thorough': 4}
 MARKERS = {'quick': [('-', 1), ('-', 3), ('1.', 1), ('1.', 3), ('*', 2), ('7)', 4)],
            'thorough': [(m, p) for m in ('-', '+', '*', '1.', '7)', '123.') for p in (1, 2, 3, 4)]}
+THEMATIC = __import__('re').compile(r'^ {0,3}([-_*])[ \t]*(\1[ \t]*){2,}$')
 THEMATIC_SAME = {('-', '---'), ('*', '***'), ('*', '* * *')}
 
 
 def describe(tier):
-    return dict(line_alphabet=L, max_lines=BOUNDS[tier], list_markers=MARKERS[tier], quote_markers=['> ', '>'])
+    return dict(line_alphabet=L, max_lines=BOUNDS[tier], list_markers=MARKERS[tier], quote_markers=['> ', '>'],
+                also='tab-free spec examples not ending in a blank line; generated trees (<= 3/4 nodes, canonical spelling)')
 
 
 def jobs(tier):
     k = BOUNDS[tier]
+    extra = [('spec', lo, lo + 41, tier) for lo in range(0, 652, 41)]
+    nt = 3 if tier == 'quick' else 4
+    for n in range(1, nt + 1):
+        ns = 1 if n < 3 else (16 if n == 3 else 128)
+        extra += [('trees', n, 2 if tier == 'quick' else 3, tier, sh, ns) for sh in range(ns)]
     if tier == 'quick':
-        return [(i, None, k, tier) for i in range(len(L))]
-    return [(i, j, k, tier) for i in range(len(L)) for j in range(len(L))] + [(i, None, 1, tier) for i in range(len(L))]
+        return [(i, None, k, tier) for i in range(len(L))] + extra
+    return [(i, j, k, tier) for i in range(len(L)) for j in range(len(L))] + [(i, None, 1, tier) for i in range(len(L))] + extra
 
 
 def strip_ln(a):
@@ -64,8 +71,8 @@ def variants(lines, tier):
     yield 'quote', '>', embed_quote(lines, True)
     if lines[0] and not lines[0].startswith(' '):
         for m, p in MARKERS[tier]:
-            if (m, lines[0]) in THEMATIC_SAME:
-                continue
+            if (m, lines[0]) in THEMATIC_SAME or THEMATIC.match(m + ' ' * p + lines[0]):
+                continue        # marker + first line read as a thematic break: the spec resolves it the other way
             yield 'list', '%s+%d' % (m, p), embed_list(lines, m, p)
 
 
@@ -129,8 +136,27 @@ def run_text(r, lines, tier):
 
 
 def run_job(job):
-    first, second, k, tier = job
     r = core.Result()
+    if job[0] == 'spec':
+        from checks import c02
+        for ex in c02.corpus()[job[1]:job[2]]:
+            md = ex['markdown']
+            if '\t' in md or not md.endswith('\n') or md.endswith('\n\n') or md.strip() == '' or any(c in md for c in '\r\x0b\x0c'):
+                r.skip('spec example with a tab / ending in a blank line / empty')
+                continue
+            run_text(r, md[:-1].split('\n'), job[3])
+        r.sample(dict(space='spec corpus', examples=[job[1] + 1, job[2]]), 1)
+        return r
+    if job[0] == 'trees':
+        _, n, depth, tier, sh, ns = job
+        for i, blocks in enumerate(trees.all_docs(n, depth)):
+            if i % ns == sh:
+                md = trees.to_markdown(blocks, trees.DEFAULTS)[0]
+                if md.strip() and not md.endswith('\n\n'):
+                    run_text(r, md[:-1].split('\n'), tier)
+        r.sample(dict(space='generated trees', nodes=n), 1)
+        return r
+    first, second, k, tier = job
     for n in range(1, k + 1):
         if second is not None and n < 2:
             continue
